@@ -826,6 +826,9 @@ class _Frame:
                 return a**b
             if op is ast.MatMult:
                 return a @ b
+            if op in (ast.FloorDiv, ast.Mod) and type(a) is int and type(b) is int and b == 0:
+                # Python integers (sizes, lengths): the program itself raises here
+                raise XRaise("ZeroDivisionError", "integer modulo by zero" if op is ast.Mod else "integer division or modulo by zero")
             if op is ast.FloorDiv:
                 return a // b
             if op is ast.Mod:
@@ -1399,8 +1402,12 @@ def _np_ones_like(a, dtype=None, **kw):
     return XArray.full(a.shape, Q(1))
 
 
-def _np_concatenate(seq, axis=0):
+def _np_concatenate(seq, axis=0, dtype=None, **kw):
+    if kw:
+        raise XArrayError("np.concatenate with options")
     arrs = [XArray.from_nested(s) for s in seq]
+    if not arrs:
+        raise XRaise("ValueError", "need at least one array to concatenate")
     if axis != 0:
         nd = arrs[0].ndim
         axis %= nd
